@@ -1449,6 +1449,27 @@ fire("c10-markov-plain-product-uses-sum-op", "C10", SUMPROD, "        result = t
 fire("c10-markov-scan-ops-swapped", "C10", SUMPROD,
      "        result = sequential_sum_product(sum_op, prod_op, trans, time, dict(step))\n", "        result = sequential_sum_product(prod_op, sum_op, trans, time, dict(step))\n", "R10.5", "eager_markov_product")
 
+# ---- C12 / C13 (claimed since round 9)
+GAUSS = "funsor/gaussian.py"
+fire("c12-offset-recorded-after-the-increment", "C12", GAUSS,
+     "            offsets[key] = total\n            total += domain.num_elements\n", "            total += domain.num_elements\n            offsets[key] = total\n", "R12.1", "_compute_offsets")
+fire("c12-split-start-not-advanced", "C12", GAUSS,
+     "            (lhs_blocks if key in lhs_keys else rhs_blocks).append(slice(start, stop))\n            start = stop\n", "            (lhs_blocks if key in lhs_keys else rhs_blocks).append(slice(start, stop))\n", "R12.2", "_split_real_inputs")
+fire("c12-split-sides-swapped", "C12", GAUSS,
+     "            (lhs_blocks if key in lhs_keys else rhs_blocks).append(slice(start, stop))\n", "            (rhs_blocks if key in lhs_keys else lhs_blocks).append(slice(start, stop))\n", "R12.2", "_split_real_inputs")
+fire("c12-gaussian-sum-factors-crossed", "C12", GAUSS,
+     "    prec_sqrt = ops.cat([lhs_prec_sqrt, rhs_prec_sqrt], -1)\n    return Gaussian(white_vec, prec_sqrt, inputs)", "    prec_sqrt = ops.cat([rhs_prec_sqrt, lhs_prec_sqrt], -1)\n    return Gaussian(white_vec, prec_sqrt, inputs)", "R12.3", "eager_add_gaussian_gaussian")
+fire("c12-gaussian-sum-concatenated-along-dim-axis", "C12", GAUSS,
+     "    prec_sqrt = ops.cat([lhs_prec_sqrt, rhs_prec_sqrt], -1)\n    return Gaussian(white_vec, prec_sqrt, inputs)", "    prec_sqrt = ops.cat([lhs_prec_sqrt, rhs_prec_sqrt], -2)\n    return Gaussian(white_vec, prec_sqrt, inputs)", "R12.3", "eager_add_gaussian_gaussian")
+fire("c13-marginalise-rows-swapped", "C13", GAUSS,
+     "            b, a = _split_real_inputs(self.inputs, reduced_vars, self.white_vec)\n", "            a, b = _split_real_inputs(self.inputs, reduced_vars, self.white_vec)\n", "R13.2", "Gaussian.eager_reduce")
+fire("c13-plate-fusion-rank-axis-before-reduced", "C13", GAUSS,
+     "            perm = kept_perm + reduced_perm + [n]\n", "            perm = kept_perm + [n] + reduced_perm\n", "R13.3", "Gaussian.eager_reduce")
+fire("c13-plate-fusion-keeps-one-axis-too-many", "C13", GAUSS,
+     "            white_vec = white_vec.reshape(white_vec.shape[: len(kept_perm)] + (-1,))\n", "            white_vec = white_vec.reshape(white_vec.shape[: len(kept_perm) + 1] + (-1,))\n", "R13.3", "Gaussian.eager_reduce")
+fire("c13-all-reals-marginalised-ignores-int-reduction", "C13", GAUSS,
+     "                return self.log_normalizer.reduce(ops.logaddexp, reduced_ints)\n", "                return self.log_normalizer\n", "R13.1", "Gaussian.eager_reduce")
+
 # ===== derived variants: must stay at the END of this file (they enumerate every rename() variant above) =====
 # `if c: A else: B` -> `if not c: B else: A` in the anchor functions (behaviour-preserving)
 def invert(prop, file, qual):
@@ -1471,7 +1492,7 @@ for _v in list(V):
         invert(_v["prop"], _v["transform"][1], _v["transform"][2])
 
 # every local of every top-level function / method of the whole package renamed at once
-for _p in ("C01", "C02", "C03", "C04", "C05", "C06", "C07", "C08", "C09", "C10", "C11", "C14", "C15", "C16", "C17", "C18", "C19", "C20"):
+for _p in ("C01", "C02", "C03", "C04", "C05", "C06", "C07", "C08", "C09", "C10", "C11", "C12", "C13", "C14", "C15", "C16", "C17", "C18", "C19", "C20"):
     V.append(dict(id=f"{_p.lower()}-s-rename-all-locals", prop=_p, kind="silent", transform=("rename_all_locals", "", "")))
     for _t in ("invert_all_ifs", "all_returns_via_temp", "all_else_after_return"):
         V.append(dict(id=f"{_p.lower()}-s-{_t.replace('_', '-')}", prop=_p, kind="silent", transform=(_t, "", "")))
